@@ -115,8 +115,10 @@ class Pyval(astlib.AST):
       return pytd.NamedType("NoneType")
     if self.type in _STRING_TYPES:
       val = self.repr_str()
-    elif self.type == "float":
-      raise ParseError(f"Invalid type `float` in Literal[{self.value}].")
+    elif self.type in ("float", "complex"):
+      raise ParseError(
+          f"Invalid type `{self.type}` in Literal[{self.value}]."
+      )
     else:
       val = self.value
     return pytd.Literal(val)
